@@ -63,21 +63,13 @@ NS["ite"] = NS.pop("ite")
 @spec
 def ceil_div(ex, a, b):
     """least integer k with k*b >= a (b > 0)."""
-    at, bt = term(a, "real"), term(b, "real")
-    k = z3.Int(ex.p.fresh_name("cdiv"))
-    kr = z3.ToReal(k)
-    ex.p.assume(z3.Implies(bt > 0, z3.And((kr - 1) * bt < at, at <= kr * bt)))
-    return Sym(k, "int")
+    return lib.ceil_of_quotient(ex, a, b, "ceil")
 
 
 @spec
 def floor_div(ex, a, b):
     """greatest integer k with k*b <= a (b > 0)."""
-    at, bt = term(a, "real"), term(b, "real")
-    k = z3.Int(ex.p.fresh_name("fdiv"))
-    kr = z3.ToReal(k)
-    ex.p.assume(z3.Implies(bt > 0, z3.And(kr * bt <= at, at < (kr + 1) * bt)))
-    return Sym(k, "int")
+    return lib.ceil_of_quotient(ex, a, b, "floor")
 
 
 @spec
